@@ -199,6 +199,9 @@ fn key_case_check(case: &Value, stats: &mut Stats) -> CheckResult {
             r2.castling = CastlingRights::from_index(b % 16);
         }
         "ep" => {
+            // only marks that can occur in a valid position: on the rank proper to the side to move
+            r1.side = if case["side"].as_str() == Some("b") { Color::Black } else { Color::White };
+            r2.side = r1.side;
             r1.ep_source = if a == 64 { None } else { Some(Coord::from_index(a % 64)) };
             r2.ep_source = if b == 64 { None } else { Some(Coord::from_index(b % 64)) };
         }
@@ -218,6 +221,11 @@ fn key_driver(_ctx: &RunCtx, stats: &mut Stats, rep: &mut Reporter) {
         for sq in 0..64 {
             for a in 0..13 {
                 for b in (a + 1)..13 {
+                    // pawns cannot stand on the first or last rank of a valid position: no claim about such keys
+                    let back_rank = sq < 8 || sq >= 56;
+                    if back_rank && (a == 1 || a == 7 || b == 1 || b == 7) {
+                        continue;
+                    }
                     cases.push(json!({"base": base, "feature": "cell", "sq": sq, "a": a, "b": b}));
                 }
             }
@@ -228,9 +236,12 @@ fn key_driver(_ctx: &RunCtx, stats: &mut Stats, rep: &mut Reporter) {
                 cases.push(json!({"base": base, "feature": "castling", "a": a, "b": b}));
             }
         }
-        for a in 0..65 {
-            for b in (a + 1)..65 {
-                cases.push(json!({"base": base, "feature": "ep", "a": a, "b": b}));
+        for (side, first) in [("w", 24u64), ("b", 32u64)] {
+            let marks: Vec<u64> = (first..first + 8).chain(std::iter::once(64)).collect();
+            for (i, a) in marks.iter().enumerate() {
+                for b in marks.iter().skip(i + 1) {
+                    cases.push(json!({"base": base, "feature": "ep", "side": side, "a": a, "b": b}));
+                }
             }
         }
     }
@@ -255,8 +266,8 @@ pub fn property() -> Property {
                every transient illegal position) stored hash == RawBoard::zobrist_hash() and white/black/combined/13 piece sets == sets \
                rebuilt from the squares. transpositions: a x b y vs b x a y (reference-legal in both orders, same squares/side/rights/mark) \
                must hash equally; changing only the counters leaves the hash unchanged. key_distinctness (exhaustive): every square x \
-               every unordered pair of the 13 cell values, side, all 120 pairs of rights sets, all 2,080 pairs of ep marks, on two base \
-               boards: hashes differ. Non-trivial = history with a capture / special move / undo; distinct by (start position, path).",
+               every unordered pair of the 13 cell values (no pawns on back ranks), side, all 120 pairs of rights sets, all pairs of the 9 \
+               possible ep marks per side to move, on two base boards: hashes differ. Non-trivial = history with a capture / special move / undo; distinct by (start position, path).",
         assumptions: &["verif::board_all only reads the private combined set", "RawBoard::zobrist_hash is the from-scratch definition of the hash"],
         subchecks: vec![
             SubCheck {
